@@ -921,6 +921,51 @@ static int apply_patch(cJSON *object, const cJSON *patch, const cJSON_bool case_
             status = 0;
             goto cleanup;
         }
+
+        if ((opcode == MOVE) || (opcode == COPY))
+        {
+            /* the value at "from" becomes the whole document */
+            cJSON *from = get_object_item(patch, "from", case_sensitive);
+            if (!cJSON_IsString(from))
+            {
+                /* missing "from" for copy/move, or "from" is not a string. */
+                status = 4;
+                goto cleanup;
+            }
+
+            value = get_item_from_pointer(object, from->valuestring, case_sensitive);
+            if (value == NULL)
+            {
+                /* missing "from" for copy/move. */
+                status = 5;
+                goto cleanup;
+            }
+
+            /* duplicate first: overwriting the root releases the value at "from" */
+            value = cJSON_Duplicate(value, 1);
+            if (value == NULL)
+            {
+                /* out of memory for copy/move. */
+                status = 6;
+                goto cleanup;
+            }
+
+            overwrite_item(object, *value);
+
+            /* delete the duplicated value */
+            cJSON_free(value);
+            value = NULL;
+
+            /* the root has no name */
+            if (object->string != NULL)
+            {
+                cJSON_free(object->string);
+                object->string = NULL;
+            }
+
+            status = 0;
+            goto cleanup;
+        }
     }
 
     if ((opcode == REMOVE) || (opcode == REPLACE))
